@@ -227,6 +227,65 @@ Theorem c15_presence_test_needed : forall (key cert : Type) (cert_of : key -> ce
 Proof. exact @truthy_accepts_added_empty. Qed.
 Print Assumptions c15_presence_test_needed.
 
+(* --- long-lived receivers (strengthening round 5) ---
+   A life = receptions (LRecv), metadata reloads that succeed or fail (LReload), anything else (LOther: look-ups,
+   sending) in any order on any number of receivers; run_life threads the receivers' state through the steps.
+   Spec.published_now st0 before r = what the last successful reload of receiver r among `before` published (found by
+   looking BACK from the reception), or r's configuration when there was none. *)
+
+(* a reception anywhere in any life answers what a receiver freshly set up with the metadata of now answers: nothing
+   received, looked up, sent or loaded earlier plays a part *)
+Theorem c15_life_fresh : forall (key cert : Type) (cert_of : key -> cert) verify,
+  forall (st0 : list (receiver key cert)) before after r iss origdoc rs sigalg signature rc pub,
+  nth_error st0 r = Some rc -> published_now st0 before r = Some pub ->
+  nth_error (run_life cert_of verify st0 (before ++ LRecv r iss origdoc rs sigalg signature :: after)) (length before)
+  = Some (RRecv (loads_redirect_c cert_of verify (r_own rc) (nth iss pub []) (r_must rc) origdoc rs sigalg signature)).
+Proof. exact @life_fresh. Qed.
+Print Assumptions c15_life_fresh.
+
+(* acceptance at any point of any life means: the owner of a certificate that the metadata holds NOW for the issuer
+   signed exactly what was handed over - a certificate withdrawn by a reload verifies nothing any more *)
+Theorem c15_life_sound : forall (key cert : Type) (cert_of : key -> cert) sign verify,
+  ideal cert_of sign verify ->
+  forall (st0 : list (receiver key cert)) before after r iss origdoc rs sigalg signature rc pub,
+  nth_error st0 r = Some rc -> published_now st0 before r = Some pub -> r_must rc = true ->
+  (forall ca, In ca (nth iss pub []) -> ca <> CAbsent) ->
+  nth_error (run_life cert_of verify st0 (before ++ LRecv r iss origdoc rs sigalg signature :: after)) (length before)
+    = Some (RRecv true) ->
+  exists a sp d k, sigalg = Some a /\ signature = Some sp /\ In (CCert (cert_of k)) (nth iss pub [])
+    /\ digest_of a = Some d /\ sp = encode (sign k d (octets_of "SAMLRequest" origdoc rs a)).
+Proof. exact @life_sound. Qed.
+Print Assumptions c15_life_sound.
+
+(* the URL an entity signed is accepted at every point of every life at which the metadata holds that entity's
+   certificate for the issuer - in particular right after the reload that introduced it *)
+Theorem c15_life_complete : forall (key cert : Type) (cert_of : key -> cert) sign verify,
+  ideal cert_of sign verify ->
+  forall (st0 : list (receiver key cert)) before after r iss rc pub k v rl a,
+  nth_error st0 r = Some rc -> published_now st0 before r = Some pub -> r_must rc = true ->
+  In a spec_allowed -> In (CCert (cert_of k)) (nth iss pub []) ->
+  exists args, http_redirect_message sign k "SAMLRequest" v rl (Some a) true = SArgs args
+    /\ nth_error (run_life cert_of verify st0
+                    (before ++ LRecv r iss v (get args "RelayState") (get args "SigAlg") (get args "Signature") :: after))
+                 (length before) = Some (RRecv true).
+Proof. exact @life_complete. Qed.
+Print Assumptions c15_life_complete.
+
+(* the smallest life that a certificate memo breaks: reception, key roll-over + reload, reception.  Whatever the
+   first reception was, a signature made with a key whose certificate the reload no longer publishes is refused *)
+Theorem c15_withdrawn_refused : forall (key cert : Type) (cert_of : key -> cert) sign verify,
+  ideal cert_of sign verify ->
+  forall own pub0 pub1 iss k d0 rs0 sa0 sg0 origdoc rs sigalg signature,
+  (forall ca, In ca (nth iss pub1 []) -> ca <> CAbsent) ->
+  ~ In (CCert (cert_of k)) (nth iss pub1 []) ->
+  (forall a d, sigalg = Some a -> digest_of a = Some d ->
+     signature = Some (encode (sign k d (octets_of "SAMLRequest" origdoc rs a)))) ->
+  nth_error (run_life cert_of verify [mkrcv own true pub0]
+               [LRecv 0 iss d0 rs0 sa0 sg0; LReload 0 true pub1; LRecv 0 iss origdoc rs sigalg signature]) 2
+  = Some (RRecv false).
+Proof. exact @withdrawn_refused. Qed.
+Print Assumptions c15_withdrawn_refused.
+
 (* the ideal-signature hypotheses are satisfiable (term algebra) *)
 Theorem c15_ideal_satisfiable : ideal ta_cert_of ta_sign ta_verify.
 Proof. exact ta_ideal. Qed.
